@@ -2241,6 +2241,50 @@ func (d *Document) parseParagraphProperties(decoder *xml.Decoder, paragraph *Par
 					return err
 				}
 				paragraph.Properties.NumberingProperties = numPr
+			case "pBdr":
+				// 段落边框
+				border, err := d.parseParagraphBorder(decoder)
+				if err != nil {
+					return err
+				}
+				paragraph.Properties.ParagraphBorder = border
+			case "tabs":
+				// 制表位
+				tabs, err := d.parseTabs(decoder)
+				if err != nil {
+					return err
+				}
+				paragraph.Properties.Tabs = tabs
+			case "snapToGrid":
+				paragraph.Properties.SnapToGrid = &SnapToGrid{Val: getAttributeValue(t.Attr, "val")}
+				if err := d.skipElement(decoder, t.Name.Local); err != nil {
+					return err
+				}
+			case "keepNext":
+				paragraph.Properties.KeepNext = &KeepNext{Val: getAttributeValue(t.Attr, "val")}
+				if err := d.skipElement(decoder, t.Name.Local); err != nil {
+					return err
+				}
+			case "keepLines":
+				paragraph.Properties.KeepLines = &KeepLines{Val: getAttributeValue(t.Attr, "val")}
+				if err := d.skipElement(decoder, t.Name.Local); err != nil {
+					return err
+				}
+			case "pageBreakBefore":
+				paragraph.Properties.PageBreakBefore = &PageBreakBefore{Val: getAttributeValue(t.Attr, "val")}
+				if err := d.skipElement(decoder, t.Name.Local); err != nil {
+					return err
+				}
+			case "widowControl":
+				paragraph.Properties.WidowControl = &WidowControl{Val: getAttributeValue(t.Attr, "val")}
+				if err := d.skipElement(decoder, t.Name.Local); err != nil {
+					return err
+				}
+			case "outlineLvl":
+				paragraph.Properties.OutlineLevel = &OutlineLevel{Val: getAttributeValue(t.Attr, "val")}
+				if err := d.skipElement(decoder, t.Name.Local); err != nil {
+					return err
+				}
 			case "sectPr":
 				// 一些文档将节属性存储在段落属性中
 				sectPr, err := d.parseSectionProperties(decoder, t)
@@ -2256,6 +2300,75 @@ func (d *Document) parseParagraphProperties(decoder *xml.Decoder, paragraph *Par
 		case xml.EndElement:
 			if t.Name.Local == "pPr" {
 				return nil
+			}
+		}
+	}
+}
+
+// parseParagraphBorder 解析段落边框
+func (d *Document) parseParagraphBorder(decoder *xml.Decoder) (*ParagraphBorder, error) {
+	border := &ParagraphBorder{}
+
+	for {
+		token, err := decoder.Token()
+		if err != nil {
+			return nil, WrapError("parse_paragraph_border", err)
+		}
+
+		switch t := token.(type) {
+		case xml.StartElement:
+			line := &ParagraphBorderLine{
+				Val:   getAttributeValue(t.Attr, "val"),
+				Color: getAttributeValue(t.Attr, "color"),
+				Sz:    getAttributeValue(t.Attr, "sz"),
+				Space: getAttributeValue(t.Attr, "space"),
+			}
+			switch t.Name.Local {
+			case "top":
+				border.Top = line
+			case "left":
+				border.Left = line
+			case "bottom":
+				border.Bottom = line
+			case "right":
+				border.Right = line
+			}
+			if err := d.skipElement(decoder, t.Name.Local); err != nil {
+				return nil, err
+			}
+		case xml.EndElement:
+			if t.Name.Local == "pBdr" {
+				return border, nil
+			}
+		}
+	}
+}
+
+// parseTabs 解析制表位定义
+func (d *Document) parseTabs(decoder *xml.Decoder) (*Tabs, error) {
+	tabs := &Tabs{}
+
+	for {
+		token, err := decoder.Token()
+		if err != nil {
+			return nil, WrapError("parse_tabs", err)
+		}
+
+		switch t := token.(type) {
+		case xml.StartElement:
+			if t.Name.Local == "tab" {
+				tabs.Tabs = append(tabs.Tabs, TabDef{
+					Val:    getAttributeValue(t.Attr, "val"),
+					Leader: getAttributeValue(t.Attr, "leader"),
+					Pos:    getAttributeValue(t.Attr, "pos"),
+				})
+			}
+			if err := d.skipElement(decoder, t.Name.Local); err != nil {
+				return nil, err
+			}
+		case xml.EndElement:
+			if t.Name.Local == "tabs" {
+				return tabs, nil
 			}
 		}
 	}
@@ -2336,6 +2449,12 @@ func (d *Document) parseRun(decoder *xml.Decoder, startElement xml.StartElement)
 					return nil, err
 				}
 				run.Text.Content = content
+			case "br":
+				// 换行/分页符
+				run.Break = &Break{Type: getAttributeValue(t.Attr, "type")}
+				if err := d.skipElement(decoder, t.Name.Local); err != nil {
+					return nil, err
+				}
 			case "drawing":
 				// 解析绘图元素（图片等）
 				drawing, err := d.parseDrawingElement(decoder, t)
@@ -2343,6 +2462,21 @@ func (d *Document) parseRun(decoder *xml.Decoder, startElement xml.StartElement)
 					return nil, err
 				}
 				run.Drawing = drawing
+			case "fldChar":
+				// 域字符
+				run.FieldChar = &FieldChar{FieldCharType: getAttributeValue(t.Attr, "fldCharType")}
+				if err := d.skipElement(decoder, t.Name.Local); err != nil {
+					return nil, err
+				}
+			case "instrText":
+				// 域指令文本
+				instr := &InstrText{Space: getAttributeValue(t.Attr, "space")}
+				content, err := d.readElementText(decoder, "instrText")
+				if err != nil {
+					return nil, err
+				}
+				instr.Content = content
+				run.InstrText = instr
 			default:
 				if err := d.skipElement(decoder, t.Name.Local); err != nil {
 					return nil, err
@@ -2792,6 +2926,18 @@ func (d *Document) parseSectionProperties(decoder *xml.Decoder, startElement xml
 				if space != "" || num != "" {
 					sectPr.Columns = &Columns{Space: space, Num: num}
 				}
+				if err := d.skipElement(decoder, t.Name.Local); err != nil {
+					return nil, err
+				}
+			case "titlePg":
+				// 首页不同
+				sectPr.TitlePage = &TitlePage{}
+				if err := d.skipElement(decoder, t.Name.Local); err != nil {
+					return nil, err
+				}
+			case "pgNumType":
+				// 页码格式
+				sectPr.PageNumType = &PageNumType{Fmt: getAttributeValue(t.Attr, "fmt")}
 				if err := d.skipElement(decoder, t.Name.Local); err != nil {
 					return nil, err
 				}
@@ -4087,12 +4233,11 @@ func (d *Document) parseNvPicPr(decoder *xml.Decoder, startElement xml.StartElem
 					return nil, err
 				}
 			case "cNvPicPr":
-				cNvPicPr := &CNvPicPr{}
-				// 解析picLocks如果存在
-				nvPicPr.CNvPicPr = cNvPicPr
-				if err := d.skipElement(decoder, t.Name.Local); err != nil {
+				cNvPicPr, err := d.parseCNvPicPr(decoder)
+				if err != nil {
 					return nil, err
 				}
+				nvPicPr.CNvPicPr = cNvPicPr
 			default:
 				if err := d.skipElement(decoder, t.Name.Local); err != nil {
 					return nil, err
@@ -4101,6 +4246,35 @@ func (d *Document) parseNvPicPr(decoder *xml.Decoder, startElement xml.StartElem
 		case xml.EndElement:
 			if t.Name.Local == "nvPicPr" {
 				return nvPicPr, nil
+			}
+		}
+	}
+}
+
+// parseCNvPicPr 解析图片非可视属性（含picLocks）
+func (d *Document) parseCNvPicPr(decoder *xml.Decoder) (*CNvPicPr, error) {
+	cNvPicPr := &CNvPicPr{}
+
+	for {
+		token, err := decoder.Token()
+		if err != nil {
+			return nil, WrapError("parse_c_nv_pic_pr", err)
+		}
+
+		switch t := token.(type) {
+		case xml.StartElement:
+			if t.Name.Local == "picLocks" {
+				cNvPicPr.PicLocks = &PicLocks{
+					NoChangeAspect:     getAttributeValue(t.Attr, "noChangeAspect"),
+					NoChangeArrowheads: getAttributeValue(t.Attr, "noChangeArrowheads"),
+				}
+			}
+			if err := d.skipElement(decoder, t.Name.Local); err != nil {
+				return nil, err
+			}
+		case xml.EndElement:
+			if t.Name.Local == "cNvPicPr" {
+				return cNvPicPr, nil
 			}
 		}
 	}
